@@ -10,6 +10,7 @@ from . import rules_equality as E
 from . import rules_build as B
 from . import rules_runtime as R
 from . import rules_template as TP
+from . import rules_iter as IT
 
 RULES = {
     "T1": T.rule_T1,
@@ -20,6 +21,7 @@ RULES = {
     "T6": T.rule_T6,
     "T13": T.rule_T13,
     "T14": S.rule_T14,
+    "T15": IT.rule_T15,
     "N4": T.rule_N4,
     "T8": C.rule_T8,
     "T9": B.rule_T9,
@@ -33,13 +35,16 @@ RULES = {
     "A6": TP.rule_A6,
     "T9p": TP.rule_T9p,
     "A3": L.rule_A3,
+    "A8": L.rule_A8,
     "D1": U.rule_D1,
     "D2": U.rule_D2,
     "D3": S.rule_D3,
     "D4": B.rule_D4,
     "D5": U.rule_D5,
+    "D7": B.rule_D7,
     "W1": S.rule_W1,
     "W2": S.rule_W2,
+    "W3": S.rule_W3,
     "D6": S.rule_D6,
     "G3": R.rule_G3,
     "G4": S.rule_G4,
@@ -88,11 +93,13 @@ PROPS = {
         "reachability of an allow-listed site is by review, stated per site in allow/panic_sites.json.",
     },
     "C13": {
-        "rules": ["A3", "T2"],
-        "claim": "Decides two clauses of C13: (A3) a character that cannot start or continue a token makes lex fail - the lexer's error "
+        "rules": ["A3", "T2", "A8"],
+        "claim": "Decides three clauses of C13: (A3) a character that cannot start or continue a token makes lex fail - the lexer's error "
         "slot, once set, is never assigned a possibly-Ok value and no further character is consumed while it is set (path-sensitive "
-        "typestate over the MIR of every Lexer method); (T2, first hop) the operator table is the language's 60 spellings. "
-        "Losslessness, positions and longest match depend on the character sequence and are not decided.",
+        "typestate over the MIR of every Lexer method); (T2, first hop) the operator table is the language's 60 spellings; (A8) operators are classified by the trie node their "
+        "whole text reaches: on the Some(node) edge of every trie step every path stores that node's own type - including none, which is what "
+        "rejects a bare prefix such as `>.` - into the lexer's token type (must-pass-through on the MIR CFG). "
+        "Losslessness, positions and the character-level longest match are value-dependent and not decided.",
     },
     "C14": {
         "rules": ["D1", "D5", "W2"],
@@ -125,12 +132,14 @@ PROPS = {
         "key lookup searches. Order, length and that every present key is found are not decided beyond that.",
     },
     "C11": {
-        "rules": ["T5", "D1"],
+        "rules": ["T5", "D1", "T15"],
         "claim": "Decides the dispatch clauses of C11: the (type, type) dispatch of data_equal (outer match and the nested slice x slice "
         "match) is symmetric, its catch-all is the constant false, mirrored arms hand the same value roles and typed accessors to the "
         "same helper, and `!=` pushes the negation of the routine `==` pushes; the length that decides 'a single character equals the "
-        "one-element list of it' is a character count, never a byte length (D1). Reflexivity/transitivity and element-wise meaning "
-        "depend on iterator contents and are not decided.",
+        "one-element list of it' is a character count, never a byte length (D1); the element-wise walk of two sequences loses no element: "
+        "no iterator is consulted again (to decide which operand is longer) after a lossy adaptor - zip, take_while, map_while - ran over a "
+        "borrow of it, so an operand exactly one element longer is never taken for equal (T15). Reflexivity/transitivity and element-wise "
+        "meaning depend on iterator contents and are not decided.",
     },
     "C19": {
         "rules": ["T8", "W1"],
@@ -148,21 +157,26 @@ PROPS = {
         "That parse returns a proper binary tree covering every token is not decided.",
     },
     "C05": {
-        "rules": ["A2", "D4", "T1", "T11"],
+        "rules": ["A2", "D4", "T1", "T11", "D7"],
         "claim": "Decides three clauses of C05: exactly one metadata record per emitted instruction on every builder path (A2, path-sensitive "
         "typestate); operands have the kind their instruction's reader expects and come from the data object's own tables - jump "
         "operands and expression values from get_jump_table_len(), data operands from add_*/parse_add_*, list counts from the child "
         "counter, jump-table entries from get_instruction_len() or a zero placeholder whose index is registered for patching, the "
         "patch itself from get_instruction_len() (D4, interprocedural origin analysis); every Definition has a handler (T1); and the loop appending a "
         "root's end instructions has no early exit and skips an entry only when the identical (instruction, operand) pair is already "
-        "the last one, so the re-joining JumpTo / EndExpression is always emitted (T11). Root-stack exhaustion depends on program shape and is not decided.",
+        "the last one, so the re-joining JumpTo / EndExpression is always emitted (T11); and a conditional's placeholder is only ever registered with a parent that "
+        "patches it: a node's conditional_parent is handed on to another node only by the handler that schedules conditional_items - the else-chain - "
+        "never by a group or operator in between (D7). Root-stack exhaustion depends on program shape and is not decided.",
     },
     "C20": {
-        "rules": ["D4", "W1"],
+        "rules": ["D4", "W1", "W3"],
         "claim": "Decides the index-provenance clause of C20: every index a build emits or reports (jump operands, expression values, the "
         "entry index, jump-table entries) originates from the data object's current table lengths or from its own add_* results, never "
         "from a literal or an absolute position (D4), and build mutates earlier state only through get_from_jump_table_mut on its own "
-        "placeholders (W1). That each program computes the same result as when built alone is not decided.",
+        "placeholders (W1); a constant built into a shared data object starts from an empty accumulator: every function that starts a "
+        "string / byte-list / list accumulation stores a fresh Some(collection) on every path, never conditionally on what an earlier, "
+        "possibly aborted, accumulation left in the field (W3, must-pass-through on the MIR CFG). That each program computes the same result "
+        "as when built alone is not decided.",
     },
     "C06": {
         "rules": ["A1", "A6", "D6"],
@@ -215,12 +229,13 @@ PROPS = {
         "overflowing_*/f64 operations is trusted, not decided.",
     },
     "C12": {
-        "rules": ["T6", "N4"],
+        "rules": ["T6", "N4", "T15"],
         "claim": "Decides the wiring clause of C12: each of the four comparison functions reports an ordering for incomparable "
         "operands on which its own predicate is false, applies the predicate its name states, and the comparison helper "
         "makes only like-typed pairs of the ordered types comparable; every arm of SimpleNumber's partial_cmp returns the "
-        "primitive partial_cmp of its operands, so NaN stays incomparable (unit) and -0.0 equals 0.0 (N4). Agreement with the "
-        "natural order on ordinary values is std's and is not decided.",
+        "primitive partial_cmp of its operands, so NaN stays incomparable (unit) and -0.0 equals 0.0 (N4); the lexicographic walk of two "
+        "lists loses no element before the lengths are compared (T15: no lossy iterator adaptor over a borrowed operand that is consulted "
+        "again - the shorter-prefix-first clause). Agreement with the natural order on ordinary values is std's and is not decided.",
     },
 }
 
@@ -229,21 +244,21 @@ TECHNIQUE = {
     "C02": "priority-map extraction from HIR compared as an ordered partition against the operator table; associativity classes",
     "C03": "resolved whole-workspace call graph (trait dispatch into both data impls) + MIR panic-site inventory (asserts, Index impls, unwrap/panic macros, std panickers) against a reviewed per-function allow-list; SCC check for recursion",
     "C07": "same call-graph reachability + MIR panic-site inventory over the runtime entry set; SCC check with a depth-bound allow-list",
-    "C13": "path-partitioned abstract interpretation of the Lexer methods' MIR with a typestate on the error slot (assume-guarantee between methods); operator table extraction",
-    "C14": "origin (def-use) analysis over resolved HIR: byte-length sources vs character-count sinks; cast scan of the literal parsers",
+    "C13": "path-partitioned abstract interpretation of the Lexer methods' MIR with a typestate on the error slot (assume-guarantee between methods); operator table extraction; must-pass-through check on the MIR CFG after every trie step (token type follows the reached node)",
+    "C14": "origin (def-use) analysis over resolved HIR: byte-length sources vs character-count sinks; cast scan of the literal parsers; accumulator typestate over the literal parsers' MIR; lossy-encoding scan of the Hash impls inside the intern key",
     "C15": "origin analysis of heap index expressions (interprocedural through parameters and struct fields); sibling cross-check of the six block push functions and copy stanzas; who-may-write tables over resolved calls; lossy-encoding scan of the Hash impls inside the intern key",
-    "C16": "enumeration of locally constructed error values (resolved constructors) in the list lookup functions of both data impls against a reviewed table",
-    "C11": "arm-table extraction of the (type,type) equality dispatch from resolved HIR: symmetry, role signatures of mirrored arms, accessor/type agreement, negation wiring",
+    "C16": "enumeration of locally constructed error values (resolved constructors) in the list lookup functions of both data impls against a reviewed table; control-context analysis of every absent-return inside a lookup loop; antisymmetry of match-based sort/search comparators",
+    "C11": "arm-table extraction of the (type,type) equality dispatch from resolved HIR: symmetry, role signatures of mirrored arms, accessor/type agreement, negation wiring; resolved-call scan for lossy iterator adaptors over borrowed operands that are consulted again",
     "C19": "per-variant arm tables of the two compaction passes: binding-to-sink flow of reference fields compared with a reference-field spec; root trace/remap/write-back agreement; who-may-write table",
     "C04": "per-Definition handler attribution table from resolved HIR; path-partitioned typestate (instruction pending / balanced) over the builder's MIR",
-    "C05": "path-partitioned typestate over the builder's MIR; interprocedural origin (def-use) analysis of every instruction operand, jump-table entry and expression value through parameters, closures and struct fields",
-    "C20": "interprocedural origin analysis of every index the builder emits or reports; who-may-write table",
+    "C05": "path-partitioned typestate over the builder's MIR; interprocedural origin (def-use) analysis of every instruction operand, jump-table entry and expression value through parameters, closures, struct fields and helper return values; who-may-forward analysis of the conditional-chain marker per dispatch arm",
+    "C20": "interprocedural origin analysis of every index the builder emits or reports; who-may-write table; must-pass-through check (MIR CFG) that every accumulation start resets its accumulator",
     "C06": "path-partitioned abstract interpretation of the instruction functions' MIR with stack-depth counters against a GarnishData contract model; bottom-up callee summaries",
     "C08": "abstract interpretation with host-event traces and symbolic operands (defer_op once, argument order, operation id); per type-pair error-code propagation with type-fact refinement for UnsupportedOpTypes escape",
     "C10": "abstract interpretation of the seven testing instructions under each of the 21 type facts (behavioural truth tables); builder out-of-line operand check on resolved HIR",
     "C17": "abstract interpretation of resolve / apply with host-event traces (once, after input lookup, right symbol / external); operator wiring and attribution tables",
-    "C09": "MIR scan of the number implementation: raw integer BinaryOp/overflow asserts, unchecked std integer calls, overflow-flag dataflow to a branch, FloatToInt casts, dominator check of finiteness tests over Float constructions",
-    "C12": "constant/predicate wiring check on the four comparison functions; comparable type-pair arm table",
+    "C09": "MIR scan of the number implementation: raw integer BinaryOp/overflow asserts, unchecked std integer calls, overflow-flag dataflow to a branch (followed into helpers), FloatToInt casts, dominator check of finiteness tests over Float constructions; lossy-encoding scan of the Hash impl that keys the number intern table",
+    "C12": "constant/predicate wiring check on the four comparison functions; comparable type-pair arm table; ordering-source check of SimpleNumber::partial_cmp; resolved-call scan for lossy iterator adaptors over borrowed operands that are consulted again",
 }
 
 _PENDING = "rules for this property are not built yet in this framework (see DESIGN.md section 6 for the order); not claimed until they are"
